@@ -4,4 +4,5 @@ open AsherahVerif.Driver.Conc
 def main (args : List String) : IO UInt32 := do
   match args with
   | "keyref" :: rest => IO.println (keyref rest); return 0
+  | "sesscache" :: rest => IO.println (sesscache rest); return 0
   | _ => IO.eprintln "usage: md_conc keyref <nKeys> <maxHeld> <maxObjs> <depth>"; return 2
